@@ -25,4 +25,12 @@ def trieAsFound : TrieFacts :=
 def takeAsFound : TakeFacts :=
   { guardsInvalid := false, guardsElem := false, returnsGenericErr := false }
 
+/-- `preNodeHandlerManager.handle` / `preBranchHandlerManager.handle` / `edgeHandlerManager.handle`:
+    both twins run through the whole handler list -/
+def chain : ChainFacts := { valueAppliesAll := true, streamAppliesAll := true }
+
+/-- the stream twin leaves the loop after the first handler (`return v.transform(…)` in the loop
+    body): the value the negation witness is stated for -/
+def chainStreamReturnsEarly : ChainFacts := { valueAppliesAll := true, streamAppliesAll := false }
+
 end EinoV.Expected.C15
